@@ -24,12 +24,20 @@ def main(tier, seed):
         qs.append(qtie.random_expr(rng, vocab + raising, rng.choice([2, 2, 3, 3, 4])))
     expected, direct_bad = [], []
     shapes = {"simple": 0, "depth1": 0, "deeper": 0}
-    for qi, q in enumerate(qs):
+    # every query is BUILT first, all from one set of shared builder objects (as a caller who keeps `tags = TagQuery()` around does), and only
+    # then evaluated: deriving a query (a key, a map(), a comparison) from a builder must not change what an earlier query means
+    builders, built = {}, []
+    for q in qs:
         try:
-            rq = M.real_query(tf, q)
-            row = [qtie.impl_eval(tf, rq, rp) for rp in rpts]
+            built.append(M.real_query(tf, q, builders))
         except Exception:  # noqa  building the query itself raised: the same outcome on every point
+            built.append(None)
+    for qi, q in enumerate(qs):
+        rq = built[qi]
+        if rq is None:
             row = [2] * len(rpts)
+        else:
+            row = [qtie.impl_eval(tf, rq, rp) for rp in rpts]
         expected.append(row)
         shapes["simple" if q[0] in ("S", "noop") else ("depth1" if qi < n_exh else "deeper")] += 1
         if qtie.wf(q):
@@ -41,7 +49,10 @@ def main(tier, seed):
                     continue
                 if got != want and len(direct_bad) < 5:
                     direct_bad.append({"query": q, "point": p, "implementation": ["False", "True", "raised", "non-bool"][got],
-                                       "documented_meaning": bool(want)})
+                                       "documented_meaning": bool(want),
+                                       "built_with": [x for x in qs[:400] if x[0] == "S" and q[0] == "S" and x[1] == q[1] and x[2][:1] == q[2][:1]][:40],
+                                       "note": "all queries are built from shared builder objects before any is evaluated (built_with: the simple queries on the same "
+                                               "attribute and first key, built in this order from the same builders)"})
     shard = 600
     files = []
     for i in range(0, len(qs), shard):
